@@ -383,7 +383,7 @@ def family_list() -> List[Any]:
     return [t1_base_chains, t1_exceptions, t2_star, t3_reexport, t4_cycles, t5_duplicates, t6_nested_packages,
             t7_moved_class_with_moved_base, t8_prefix_roots, t9_reexport_while_origin_processing, t10_double_reexport,
             t12_instance_variable_kind, t13_attribute_docstring_after_import,
-            t11_cycle_rename_and_consumer_first, t14_two_roots_facade]
+            t11_cycle_rename_and_consumer_first, t14_two_roots_facade, t16_type_checking_cycle]
 
 
 def t12_instance_variable_kind() -> Iterator[Dict[str, Any]]:
@@ -458,3 +458,16 @@ def t15_rebinding() -> Iterator[Dict[str, Any]]:
             second = [mod("o", 1, ops=flat(cls("W", body=[fn("paint")]), fn("enc")))] if any(o.get("m") == ["o"] for o in ops) else []
             yield project([init, mod("b", 1, ops=flat(cls("W", body=[fn("draw")]), fn("enc")))] + second
                           + [mod("w", 1, ops=ops), mod("c", 1, ops=use)], "T15", shape=shape, reexport=reexport)
+
+
+def t16_type_checking_cycle() -> Iterator[Dict[str, Any]]:
+    """T16: an import cycle that exists for the type checker only (`if TYPE_CHECKING: from ._ext import D` at the top of the
+       defining module): pydoctor analyses the guarded import, so the subclass module is visited BEFORE the class it derives from
+       exists and before the package re-exports it; the subclass has a class-level assignment (a lookup through its bases while
+       the modules are still analysed)."""
+    for via in ("package", "origin"):
+        src = frm("p", "X") if via == "package" else frm("p._core", "X")
+        yield project([mod("p", pkg=True, ops=[frm("_core", "X", lvl=1)], all=["X"]),
+                       mod("_core", 1, ops=flat({**frm("_ext", "D", lvl=1), "tc": True}, cls("X", body=[fn("spawn")]))),
+                       mod("_ext", 1, ops=flat(src, cls("D", "X", body=[var("level")]), cls("E", "D", body=[var("more")])))],
+                      "T16", via=via, cyclic=True)
